@@ -91,17 +91,30 @@ def _c(pid, text, note, technique, design=None):
 
 _c("C03",
    "Coq theorems (Props/C03.v, closed under the global context) about the executable model of Structure.__setattr__, "
-   "__delitem__ and the wrapper mutators (Struct/Instance.v, Struct/Mutate.v), whose per-mutator shapes are regenerated from "
-   "collections_impl.py and introspection of list/dict/deque on every run (Gen/Tables.v): an exact characterisation of the "
-   "steps that are validated and failure-atomic (C03_step_safe, C03_setattr_exact, C03_delitem_exact, parametric in the "
-   "table), its lift to histories of any length by induction (C03_history, C03_failed_steps_stutter), and a constructed "
-   "violating (class, state, op) for every unsafe table entry (C03_witness) plus C03_refuted for the full statement, which is "
-   "false of the faithful model on the pinned tree. The model's mstep is compared with typedpy on generated histories inside "
-   "Coq, and the property's clauses (snapshot unchanged on raise, allowed exception class, struct_ok after success) are "
-   "evaluated on every observed step to produce replays.",
-   "Trusted: Coq kernel + vm_compute; hand-written Instance.v/Mutate.v; shape recogniser harness/gen.py (fail closed); CPython's "
-   "base-container result used as the oracle of a wrapper op; nested containers and DateString checked on the implementation only.",
-   "Coq proof (invariant by induction over operation histories, characterisation parametric in generated tables) + "
+   "__delitem__ and the wrapper mutators (Struct/Instance.v, Struct/Mutate.v, Struct/WrapBody.v). Two generated layers, rewritten "
+   "from collections_impl.py and introspection of list/dict/deque on every run: Gen/Tables.v (which mutators exist / are "
+   "overridden) and Gen/WrapBodies.v (every overriding method transliterated statement by statement); the shape of each method is "
+   "decided IN COQ by classify on the translated body. Proved: for any body classified copy-mutate-reassign the statement-level "
+   "execution (any number of base operations on the copy, trailing operations on the wrapper itself, base methods as oracles -- "
+   "failing ones included -- live or stale handle) changes the instance exactly as the coarse step does (C03_body_sound, induction "
+   "over the body), hence is validated and atomic (C03_body_step_good); an exact characterisation of the steps that are validated "
+   "and failure-atomic (C03_step_safe, C03_setattr_exact, C03_delitem_exact, parametric in the table), its lift to histories of "
+   "any length by induction (C03_history, C03_failed_steps_stutter), witnesses: a constructed violating (class, state, op) for "
+   "every unsafe table entry (C03_witness, strict_table_status), an in-place body exposes what a base method that fails half way "
+   "leaves behind (C03_inplace_failure_exposes_partial), and C03_refuted for the full statement, which is false of the faithful "
+   "model on the pinned tree. The model's mstep is compared with typedpy inside Coq on generated histories (all introspected "
+   "mutators; positional, keyword, slice, one-shot-iterator, failing-iterator and key-function arguments; `x.f += v` statement "
+   "forms; re-read and re-used handles) and on enumerated streams (values Python's == cannot tell from the stored one through "
+   "every entry point, a value lattice over multi-field wrappers, calls on which the base type's own method is not atomic), and the "
+   "property's clauses (snapshot unchanged on raise, allowed exception class, struct_ok after success) are evaluated on every "
+   "observed step to produce replays.",
+   "Trusted: Coq kernel + vm_compute; hand-written Instance.v/Mutate.v/WrapBody.v; the statement transliterator "
+   "harness/genmods/wrapbodies.py and the override finder harness/gen.py (both fail closed: SOther / Unrecognised); that "
+   "Array/Deque/Map.__set__ stores a NEW wrapper (assumed by WrapBody.reassign, exercised by the correspondence); CPython's "
+   "base-container result used as the oracle of a wrapper op; nested containers (F5), every exported Field class beyond the modelled "
+   "vocabulary (DateString, HostName, ...) and a __validate__ hook that reads container sizes are checked on the implementation only.",
+   "Coq proof (invariant by induction over operation histories; refinement of the statement-level wrapper model to the coarse "
+   "step by induction over the translated method body; characterisation parametric in generated tables) + "
    "model/implementation correspondence in vm_compute")
 _c("C05",
    "Coq theorems (Props/C05.v, closed under the global context): for every canonical valid instance of the proved fragment "
